@@ -1,0 +1,1 @@
+//! verif-hooks: eval area (read-only accessors; see mod.rs)
